@@ -455,3 +455,206 @@ impl Group for InFlight {
         format!("{} {}", l.split(' ').nth(1).unwrap_or(""), o.split(' ').next().unwrap_or(""))
     }
 }
+
+/// The real `kvarnctl` binary (ctl/src/main.rs, built from the working tree) against a running instance: what the plugin
+/// registered under the typed command word receives.
+pub struct Cli {
+    rt: tokio::runtime::Runtime,
+    path: std::path::PathBuf,
+    bin: Result<std::path::PathBuf, String>,
+    _mgr: std::sync::Arc<kvarn::shutdown::Manager>,
+}
+/// plugin names the instance registers: the command word goes through the same encoding as the arguments
+const CLI_NAMES: [&str; 5] = ["rec", "re c", "re'c", "re\"c", "re\\c"];
+static CLI_SEEN: std::sync::Mutex<Option<Vec<String>>> = std::sync::Mutex::new(None);
+impl Cli {
+    pub fn new(ctx: &Ctx) -> Self {
+        // the kvarn tree this harness was built against: the path dependency in our own manifest
+        let manifest_dir = env!("CARGO_MANIFEST_DIR");
+        let manifest = std::fs::read_to_string(format!("{manifest_dir}/Cargo.toml")).unwrap_or_default();
+        let root = manifest
+            .lines()
+            .find_map(|l| l.strip_prefix("kvarn = { path = \"").map(|r| r.split('"').next().unwrap_or("/repo").to_owned()))
+            .unwrap_or_else(|| "/repo".to_owned());
+        let target = format!("{manifest_dir}/target/kvarnctl");
+        let out = std::process::Command::new("cargo")
+            .args(["build", "--offline", "--manifest-path", &format!("{root}/ctl/Cargo.toml")])
+            .env("CARGO_TARGET_DIR", &target)
+            .env("CARGO_NET_OFFLINE", "true")
+            .output();
+        let bin = match out {
+            Ok(o) if o.status.success() => Ok(std::path::PathBuf::from(format!("{target}/debug/kvarnctl"))),
+            Ok(o) => Err(String::from_utf8_lossy(&o.stderr).lines().filter(|l| l.starts_with("error")).take(3).collect::<Vec<_>>().join(" | ")),
+            Err(e) => Err(e.to_string()),
+        };
+        let rt = tokio::runtime::Builder::new_multi_thread().worker_threads(2).enable_all().build().unwrap();
+        let dir = ctx.work.join("c19");
+        std::fs::create_dir_all(&dir).unwrap();
+        let path = dir.join(format!("cli-{}.sock", std::process::id()));
+        let _ = std::fs::remove_file(&path);
+        let p2 = path.clone();
+        let mgr = rt.block_on(async move {
+            let mut cfg = kvarn::RunConfig::new().set_ctl_path(&p2);
+            for name in CLI_NAMES {
+                let plugin: kvarn::ctl::Plugin = Box::new(|args, _ports, _mgr, _plugins| {
+                    Box::pin(async move {
+                        let mut v = vec![args.name().to_owned()];
+                        v.extend(args.iter().map(str::to_owned));
+                        *CLI_SEEN.lock().unwrap() = Some(v);
+                        kvarn::ctl::PluginResponse::ok_empty()
+                    }) as kvarn::extensions::RetSyncFut<'_, _>
+                });
+                cfg = cfg.add_plugin(name, plugin);
+            }
+            cfg.execute().await
+        });
+        for _ in 0..200 {
+            if path.exists() {
+                break;
+            }
+            std::thread::sleep(std::time::Duration::from_millis(10));
+        }
+        Cli { rt, path, bin, _mgr: mgr }
+    }
+    fn parts(line: &str) -> (String, Vec<String>) {
+        let p: Vec<&str> = line.split(' ').collect();
+        let cmd = String::from_utf8(unhex(p[1]).unwrap()).unwrap();
+        let args = parse_list(p[2]).unwrap().iter().map(|h| String::from_utf8(unhex(h).unwrap()).unwrap()).collect();
+        (cmd, args)
+    }
+    fn usable(a: &str) -> bool {
+        // what a shell user can pass as a positional word: no NUL, and clap reads a leading `-` as an option
+        !a.contains('\0') && !a.starts_with('-')
+    }
+}
+impl Group for Cli {
+    fn name(&self) -> &'static str {
+        "c19.cli"
+    }
+    fn rule(&self) -> &'static str {
+        "the kvarnctl binary built from the working tree (ctl/src/main.rs), run as `kvarnctl -s <socket> <command> <args…>` against a running instance whose plugins record the name and arguments they are called with; command words with a space, either quote and a backslash; 0-3 arguments over {a,space,\",',\\} exhaustively to length 2 (pairs) / 3, random unicode; compared with the model's kvarnctl + split + dispatch; oracle: the plugin named by the command word saw exactly the arguments typed, exit status 0; non-trivial = some word empty or with a special character"
+    }
+    fn parallel(&self) -> bool {
+        false
+    }
+    fn generate(&self, ctx: &Ctx, rng: &mut Rng) -> Vec<String> {
+        let mut v = Vec::new();
+        let line = |cmd: &str, args: &[String]| format!("c19.cli {} {}", hex(cmd.as_bytes()), list(args.iter().map(|a| hex(a.as_bytes()))));
+        v.push(line("rec", &[]));
+        v.push(line("nosuchcommand", &["a".into()]));
+        for cmd in CLI_NAMES {
+            v.push(line(cmd, &["a".into()]));
+            v.push(line(cmd, &["it's".into(), "o'neill.example.org".into(), "/index.html".into()]));
+        }
+        for a in all_strings(if ctx.mode == Mode::Quick { 3 } else { 4 }) {
+            v.push(line("rec", &[a]));
+        }
+        let small = all_strings(if ctx.mode == Mode::Quick { 1 } else { 2 });
+        for a in &small {
+            for b in &small {
+                v.push(line("rec", &[a.clone(), b.clone()]));
+            }
+        }
+        let n = if ctx.mode == Mode::Quick { 300 } else { 6000 };
+        for _ in 0..n {
+            let cmd = if rng.chance(1, 4) { *rng.pick(&CLI_NAMES) } else { "rec" };
+            let k = rng.range(1, 3);
+            let args: Vec<String> = (0..k)
+                .map(|_| {
+                    let mut a = gen_string(rng, 10);
+                    // words like a host name or a path with one apostrophe, dot, slash in them
+                    if rng.chance(1, 4) {
+                        a = format!("{}{}{}", rng.pick(&["o", "it", "/p/", "a.b"]), rng.pick(&["'", "\"", "\\", "' '"]), rng.pick(&["s.html", "neill.org", "", "x y"]));
+                    }
+                    a
+                })
+                .filter(|a| Self::usable(a))
+                .collect();
+            if !args.is_empty() {
+                v.push(line(cmd, &args));
+            }
+        }
+        v
+    }
+    fn run_impl(&self, _ctx: &Ctx, line: &str) -> String {
+        let bin = match &self.bin {
+            Ok(b) => b,
+            Err(e) => return format!("kvarnctl-build-failed {e}"),
+        };
+        let (cmd, args) = Self::parts(line);
+        *CLI_SEEN.lock().unwrap() = None;
+        let mut child = match std::process::Command::new(bin)
+            .arg("-s")
+            .arg(&self.path)
+            .arg(&cmd)
+            .args(&args)
+            .env("KVARNCTL_LOG", "off")
+            .stdout(std::process::Stdio::null())
+            .stderr(std::process::Stdio::null())
+            .spawn()
+        {
+            Ok(c) => c,
+            Err(e) => return format!("spawn-failed {e}"),
+        };
+        let t0 = std::time::Instant::now();
+        let code = loop {
+            match child.try_wait() {
+                Ok(Some(st)) => break st.code().unwrap_or(-1),
+                Ok(None) if t0.elapsed() > std::time::Duration::from_secs(10) => {
+                    let _ = child.kill();
+                    let _ = child.wait();
+                    return "timeout".into();
+                }
+                Ok(None) => std::thread::sleep(std::time::Duration::from_millis(1)),
+                Err(e) => return format!("wait-failed {e}"),
+            }
+        };
+        let _ = &self.rt;
+        match CLI_SEEN.lock().unwrap().take() {
+            Some(v) => format!("exit={code} seen={}", list(v.iter().map(|a| hex(a.as_bytes())))),
+            None => format!("exit={code} seen=-"),
+        }
+    }
+    fn oracle(&self, _ctx: &Ctx, line: &str, out: &str) -> Option<(String, String)> {
+        let (cmd, args) = Self::parts(line);
+        if !CLI_NAMES.contains(&cmd.as_str()) || (args.is_empty() && cmd != "rec") {
+            return None;
+        }
+        let mut typed = vec![cmd.clone()];
+        typed.extend(args.iter().cloned());
+        let want = format!("exit=0 seen={}", list(typed.iter().map(|a| hex(a.as_bytes()))));
+        if out != want {
+            let seen: Option<Vec<String>> = out.split("seen=").nth(1).and_then(parse_list).map(|l| l.iter().map(|h| String::from_utf8_lossy(&unhex(h).unwrap_or_default()).into_owned()).collect());
+            return Some((format!("cli:{typed:?}"), format!("typed {typed:?}, the instance's plugin saw {seen:?} ({})", out.split(' ').next().unwrap_or(""))));
+        }
+        None
+    }
+    fn nontrivial(&self, line: &str, _o: &str) -> bool {
+        let (cmd, args) = Self::parts(line);
+        args.iter().chain(std::iter::once(&cmd)).any(|a| a.is_empty() || a.contains(['"', '\'', '\\', ' ']))
+    }
+    fn classify(&self, l: &str, o: &str) -> String {
+        format!("args={} {}", Self::parts(l).1.len(), o.split(' ').next().unwrap_or(""))
+    }
+    fn shrink(&self, line: &str) -> Vec<String> {
+        let (cmd, args) = Self::parts(line);
+        let mk = |args: &[String]| format!("c19.cli {} {}", hex(cmd.as_bytes()), list(args.iter().map(|a| hex(a.as_bytes()))));
+        let mut out = Vec::new();
+        for i in 0..args.len() {
+            if args.len() > 1 {
+                let mut a = args.clone();
+                a.remove(i);
+                out.push(mk(&a));
+            }
+            let cs: Vec<char> = args[i].chars().collect();
+            for j in 0..cs.len() {
+                let mut a = args.clone();
+                a[i] = cs.iter().enumerate().filter(|(k, _)| *k != j).map(|(_, c)| *c).collect();
+                if Self::usable(&a[i]) {
+                    out.push(mk(&a));
+                }
+            }
+        }
+        out
+    }
+}
